@@ -116,6 +116,7 @@ def atom_vocabulary():
     A.append(("exists", "fields", "x"))
     A.append(("exists", "fields", "nokey"))
     A.append(("test", "fields", ("x",), "num_pos", ()))
+    A.append(("test", "fields", ("x",), "signbit", ()))
     A.append(("test", "fields", ("x",), "is_none", ()))
     A.append(("test", "fields", ("x",), "above_0", ()))
     A.append(("test", "fields", ("x",), "above_1", ()))
@@ -356,6 +357,84 @@ def augmented_assignment_pass(res, pts):
     res.count("augmented_assignments", k)
 
 
+def deep_chain_pass(res, pts):
+    """Queries composed in a loop: hundreds of operands folded with one operator, then combined with another operator
+    or negated.  Evaluated by the real objects and, without recursion, by plain boolean folding of the atoms."""
+    import functools
+    import operator as _op
+
+    rpts = [p.to_real() for p in pts if p.t is not None]
+    mpts = [p for p in pts if p.t is not None]
+    atoms_ = [("cmp", "tags", ("k",), "==", v) for v in ("a", "B", "", "zz")] + [("cmp", "fields", ("x",), "==", v) for v in (0, -1, 1.5, 2, 7)] + [("exists", "tags", "nokey")]
+    bound = ("cmp", "time", (), "<=", ("T", T0, 0))
+    for n in (130, 300):
+        for fold_op in ("or", "and"):
+            seq = [atoms_[(i * 7 + n) % len(atoms_)] for i in range(n)]
+            if fold_op == "and":
+                seq = [("not", a) if i % 3 else a for i, a in enumerate(seq)]  # keep the conjunction satisfiable
+            reals = [qast.to_real(a) for a in seq]
+            wide = functools.reduce(_op.or_ if fold_op == "or" else _op.and_, reals)
+            variants = [
+                ("wide", wide, lambda vals: (any if fold_op == "or" else all)(vals), None),
+                ("~wide", ~wide, lambda vals: not (any if fold_op == "or" else all)(vals), None),
+                ("wide & bound", wide & qast.to_real(bound), lambda vals, b: (any if fold_op == "or" else all)(vals) and b, bound),
+                ("bound | wide", qast.to_real(bound) | wide, lambda vals, b: (any if fold_op == "or" else all)(vals) or b, bound),
+                ("~(wide | bound)", ~(wide | qast.to_real(bound)), lambda vals, b: not ((any if fold_op == "or" else all)(vals) or b), bound),
+            ]
+            all_vals = [[qast.holds(a, mp) for a in seq] for mp in mpts]
+            for name, q, f, extra in variants:
+                for (mp, rp), vals in zip(zip(mpts, rpts), all_vals):
+                    want = f(vals) if extra is None else f(vals, qast.holds(extra, mp))
+                    res.evaluations += 1
+                    res.count("deep_chain_evaluations")
+                    try:
+                        got = bool(q(rp))
+                    except Exception as e:  # noqa: BLE001
+                        got = f"raised {type(e).__name__}"
+                    if got != want:
+                        res.violate(Violation("C09", "query-truth-mismatch", {"query": f"{name}, wide = {n} operands folded with {fold_op}", "point": mp.to_json(), "expected": want, "observed": got, "origin": "deep-chain"},
+                                              replay={"deep_chain": n, "fold": fold_op, "variant": name}, features={"origin": "deep-chain"}))
+                        break
+    res.seen(("deep-chains",))
+
+
+def reevaluation_pass(res, A):
+    """A query object is a pure function of the point as it is NOW: evaluate on a point, edit the point in place (same
+    object), evaluate again with the same query object."""
+    from tinyflux import Point
+
+    states = [
+        ({"k": "a"}, {"x": 2}, "m0"), ({"k": "B"}, {"x": -1}, "m1"), ({}, {}, "m0"), ({"k": None}, {"x": None}, "m1"), ({"k": ""}, {"x": 1.5}, "m0"),
+    ]
+    for ast in A:
+        if any(a_[0] == "test" and a_[3] in ("lam_a", "lam_b") for a_ in qast.atoms(ast)):
+            continue
+        try:
+            q = qast.to_real(ast)
+        except Exception:  # noqa: BLE001
+            continue
+        p = Point(time=from_us(T0), measurement="m0", tags={"k": "a"}, fields={"x": 2})
+        for tags, fields, m in states + states[::-1]:
+            p.tags.clear()
+            p.tags.update(tags)      # edited in place: the same dict objects, the same Point object
+            p.fields.clear()
+            p.fields.update(fields)
+            p.measurement = m
+            mp = MPoint(T0, m, dict(tags), dict(fields))
+            want = qast.holds(ast, mp)
+            res.evaluations += 1
+            res.count("reevaluations_after_in_place_edit")
+            try:
+                got = bool(q(p))
+            except Exception as e:  # noqa: BLE001
+                got = f"raised {type(e).__name__}"
+            if got != want:
+                res.violate(Violation("C09", "query-truth-mismatch", {"query": qast.show(ast), "point": mp.to_json(), "expected": want, "observed": got,
+                                      "origin": "same query object, same Point object, edited in place since the previous evaluation"},
+                                      replay={"ast": ast, "point": mp.to_json()}, features={"origin": "reevaluation"}))
+                break
+
+
 def _is_v(x):
     return x == "v"
 
@@ -442,6 +521,14 @@ def run(res, tier, seed, shard, nshards):
         key_addressing_pass(res)
     if shard == (2 % nshards):
         augmented_assignment_pass(res, pts)
+    if shard == (0 % nshards):
+        reevaluation_pass(res, A + [("not", a_) for a_ in A[:40]] + [("and", A[i], A[-i - 1]) for i in range(30)])
+    if shard == (3 % nshards):
+        contracts.COMPOUND_CHECK[0] = False
+        try:
+            deep_chain_pass(res, pts[::11])
+        finally:
+            contracts.COMPOUND_CHECK[0] = True
 
     for b in contracts.drain(res):
         res.violate(Violation("C09", "compound-is-not-boolean-operator", {"what": b}, replay={"what": list(b)}))
@@ -458,6 +545,8 @@ def finalize(res, tier):
     res.require("key_addressing.evaluations")
     res.require("key_addressing.attribute_spellings")
     res.require("augmented_assignments")
+    res.require("deep_chain_evaluations")
+    res.require("reevaluations_after_in_place_edit")
 
 
 def replay(res, rep):
